@@ -311,6 +311,7 @@ func genProgram(seed int64, pool string, idx int) cProgram {
 		}
 		p.Pattern = append(p.Pattern, "boundary-arguments")
 	}
+	shapeProgramNames(seed, pool, idx, &p)
 	sort.Strings(p.Pattern)
 	return p
 }
